@@ -413,6 +413,7 @@ func TestVerifC15Changes(t *testing.T) {
 		w.st = st
 		w.mode = rapid.SampledFrom([]int{2, 2, 2, 1, 0}).Draw(rt, "checkMode")
 		w.balBase = rapid.IntRange(0, 1).Draw(rt, "firstIndex")
+		w.noIRoot = true
 
 		merged := bal.NewConstructionBlockAccessList()
 		mm := newC15Block()
